@@ -36,8 +36,13 @@ ASSUMPTIONS = [
     "segment along a polygon edge, a polygon in the plane of a polyhedron face) may be kept or "
     "dropped: the statement's 'inside' is read as closed-set inclusion for what is returned, and "
     "open-set for what must be returned",
-    "pieces may overlap each other only in sets of measure zero is NOT demanded in 2-d (union "
-    "semantics); in 3-d a convex polyhedron must yield at most one piece per polygon",
+    "2-d: union semantics -- every strictly-inside elementary interval must be covered by a piece of "
+    "its parent and no piece may reach into a strictly-outside interval; mutual overlap of pieces is "
+    "not judged. 3-d: a convex polygon in a convex polyhedron must yield at most one piece, whose "
+    "vertices lie in the polyhedron and on the parent polygon and whose area equals the exact area",
+    "three degenerate polygon/polyhedron contact classes (polygon coplanar with a face; polygon plane "
+    "containing a polyhedron edge; polygon edges in two parallel face planes) are part of the "
+    "alphabet; their failures are matched by known_finding() on the exact contact class of the input",
     "a 3-d piece is the polygon described by its vertex order: its area is the Newell vector area",
     "input polygons in 3-d are convex (rectangles, triangles); polyhedra are convex",
 ]
